@@ -39,6 +39,16 @@ def gen_case(seed, i):
     world, roots = gen.gen_world(rng, cfg, nroots=nroots, hostile=rng.random() < 0.4,
                                  max_files=48 if wide else rng.choice([6, 12, 24]),
                                  families=rng.choice([1, 2]) if wide else rng.randint(1, 5), wide=wide)
+    if i % 40 == 7 and not cfg.get("transform"):
+        # one case in forty is BIG: more than a thousand tiny files (one class of 1025..1300 copies and a few
+        # hundred pairs) - containers, chunks and batches of the pipeline have sizes of their own
+        base_ = roots[0]
+        n_one = rng.choice([1025, 1100, 1300])
+        for k in range(n_one):
+            world.entries.append({"t": "f", "p": "%s/big/c%d/x%d" % (base_, k % 7, k), "c": {"fam": 700, "len": 3, "flips": []}})
+        for k in range(rng.choice([300, 600])):
+            for side in ("p", "q"):
+                world.entries.append({"t": "f", "p": "%s/big/%s%d/y%d" % (roots[-1], side, k % 5, k), "c": {"fam": 1000 + k, "len": 2 + k % 50, "flips": []}})
     if cfg.get("transform"):
         cfg["cache"] = rng.random() < 0.5          # warm-cache runs matter most with transforms
         for e in world.entries:
